@@ -164,7 +164,8 @@ CHECKS["C16"] = dict(
          "group-consecutive concatenates back with constant groups; counts = distinct items with multiplicities; sort = ordered "
          "permutation; sum append/reverse laws. Tie: 13 elements vs their models on exhaustive small lists; ~40 law oracles on the real "
          "elements (sort, flatten, zip, transpose, sublists, powerset, permutations, cartesian product, grading, membership, ...).",
-    note=COMMON_NOTE + "Partial: builtins that delegate to sorted/itertools (permutations, powerset, cartesian product, sublists) are covered by the law "
+    note=COMMON_NOTE + "powerset (powerset_eq_sublists: the element's doubling loop is List.sublists — exactly the sub-sequences, 2^n of them, no repetition for a "
+         "duplicate-free list) and permutations (n! lists, each a rearrangement) are theorems now. Partial: the cartesian product (diagonal order), sublists and what sorted() does are covered by the law "
          "oracles only (T5). Known finding F30: the empty product is 0.",
     technique="Lean 4 proof by induction on lists over loop-faithful models; differential correspondence; executable law oracles",
     ref="§5 C16")
